@@ -420,55 +420,9 @@ def containsUSpace : Bytes → Bool
 
 end Huginn.Http1.Spec
 
-/-! ### known-finding classes (decidable exclusion predicates) -/
-namespace Huginn.KF.C05
-open Huginn.Http1 Huginn.Http1.Spec Huginn.Gen
+/-! ### known-finding classes
 
-/-- The processor gate (`can_process_request`) does not list a method the parser supports. -/
-def methodGate (h : ReqHead) : Prop :=
-  h.method ∈ supportedMethods.map ascii ∧ h.method ∉ HttpLists.gateMethods.map ascii
-instance (h) : Decidable (methodGate h) := by unfold methodGate; exact inferInstance
-
-def nameCaseOf (isReq : Bool) (n : Bytes) : Bool :=
-  (ciMem n (p0fOptional isReq) && !inList (p0fOptional isReq) n) ||
-  (!ciMem n (p0fOptional isReq) && ciMem n (p0fSkipValue isReq) && !inList (p0fSkipValue isReq) n)
-
-/-- A reported header is on the optional / value-elided list up to letter case only: the code
-compares exactly, so the `?` mark / the elision is lost. -/
-def headerNameCaseReq (h : ReqHead) : Prop :=
-  ∃ f ∈ h.fields, isCookieOrReferer f = false ∧ nameCaseOf true f.name = true
-instance (h) : Decidable (headerNameCaseReq h) := by unfold headerNameCaseReq; exact inferInstance
-
-def headerNameCaseRes (h : ResHead) : Prop := ∃ f ∈ h.fields, nameCaseOf false f.name = true
-instance (h) : Decidable (headerNameCaseRes h) := by unfold headerNameCaseRes; exact inferInstance
-
-def weightOws (i : LangItem) : Bool :=
-  match i.weight with
-  | none => false
-  | some w => !w.ows.isEmpty || !w.trail.isEmpty || w.upperQ
-
-/-- An Accept-Language weight is not literally `;q=<qvalue>`: OWS after ";" or after the qvalue, or
-"Q=" — the code then reads the quality as 1. -/
-def langWeightOws (h : ReqHead) : Prop :=
-  (firstField h.fields "accept-language").isSome ∧ ∃ i ∈ h.langs, weightOws i = true
-instance (h) : Decidable (langWeightOws h) := by unfold langWeightOws; exact inferInstance
-
-/-- A primary language subtag contains an upper-case letter: the code's table lookup is exact. -/
-def langTagCase (h : ReqHead) : Prop :=
-  (firstField h.fields "accept-language").isSome ∧
-  ∃ i ∈ h.langs, (splitByte 45 i.tag).headD [] ≠ primaryLower i
-instance (h) : Decidable (langTagCase h) := by unfold langTagCase; exact inferInstance
-
-def fieldUSpace (f : Field) : Bool := startsWithUSpace f.value || endsWithUSpace f.value
-
-/-- A field value begins or ends with a non-ASCII Unicode White_Space character (or a Cookie value
-contains one): `str::trim` removes it although it is not OWS. -/
-def unicodeSpaceReq (h : ReqHead) : Prop :=
-  (∃ f ∈ h.fields, fieldUSpace f = true) ∨
-  (∃ f ∈ h.fields, ciEq f.name "cookie" = true ∧ containsUSpace f.value = true)
-instance (h) : Decidable (unicodeSpaceReq h) := by unfold unicodeSpaceReq; exact inferInstance
-
-def unicodeSpaceRes (h : ResHead) : Prop := ∃ f ∈ h.fields, fieldUSpace f = true
-instance (h) : Decidable (unicodeSpaceRes h) := by unfold unicodeSpaceRes; exact inferInstance
-
-end Huginn.KF.C05
+None is open: the five classes found on the snapshot (method gate, header-name case, Accept-Language
+weight OWS / "Q=", language-tag case, Unicode white-space trimming) were repaired in /repo
+(fixes/C05-1 … C05-4) and their predicates deleted; `Props/C05.lean` proves the statement at full
+strength and keeps the former witnesses as regression examples. -/
